@@ -135,6 +135,66 @@ def _simple_task(qts):
     return part
 
 
+def _registration_strings(part, depth):
+    """Every sequence of <= depth steps on a fresh small database in which ONE category is registered again
+    under another quantity type between uses: the strings of quantities built afterwards name the quantity
+    type the registrations imply (taken from the history, not from a getter that may itself be stale)."""
+    import itertools
+
+    from barril.units import UnitDatabase
+
+    BASE = {"length": "m", "time": "s", "volume": "m3"}
+
+    def fresh():
+        db = UnitDatabase()
+        for qt, u in BASE.items():
+            db.AddUnitBase(qt, qt + " unit", u)
+            db.AddCategory(qt, qt)
+        db.AddCategory("basis", "length")
+        return db
+
+    def use(st):
+        qt = st["qt"]
+        q = ObtainQuantity(BASE[qt], "basis")
+        q.GetQuantityType(), q.GetUnitName(), str(Scalar(q, 1.0))
+        d = Scalar(2.0, BASE[qt], "basis") / Scalar(4.0, "s", "time")
+        d.GetQuantityType(), d.GetUnitName(), d.GetCategory()
+
+    def override(qt):
+        def f(st):
+            st["db"].AddCategory("basis", qt, override=True)
+            st["qt"] = qt
+
+        return f
+
+    STEPS = [("use 'basis' (simple and per time)", use)] + [("AddCategory('basis', %r, override=True)" % qt, override(qt)) for qt in BASE]
+    for n in range(1, depth + 1):
+        for hist in itertools.product(range(len(STEPS)), repeat=n):
+            st = {"db": fresh(), "qt": "length"}
+            with worlds.installed(st["db"]):
+                for i in hist:
+                    STEPS[i][1](st)
+                qt = st["qt"]
+                u = BASE[qt]
+                part.count("evaluations")
+                part.count("registration_histories")
+                sig = "C20:history: %s" % " ; ".join(STEPS[i][0] for i in hist)
+                try:
+                    q = ObtainQuantity(u, "basis")
+                    simple = (q.GetQuantityType(), q.GetCategory(), q.GetUnit())
+                    d = (Scalar(2.0, u, "basis") * Scalar(3.0, u, "basis")) / Scalar(4.0, "s" if qt != "time" else "m", "time" if qt != "time" else "length")
+                    derived = (d.GetQuantityType(), d.GetCategory(), d.GetUnit())
+                except Exception as e:
+                    part.violation(sig + " :: building quantities of the re-registered category raised", {"error": repr(e)})
+                    continue
+                other_qt, other_u = ("time", "s") if qt != "time" else ("length", "m")
+                want_simple = (qt, "basis", u)
+                want_derived = ("(%s) ** 2 / %s" % (qt, other_qt), "(basis) ** 2 / %s" % other_qt, "%s2/%s" % (u, other_u))
+                if simple != want_simple or derived != want_derived:
+                    part.violation(sig + " :: strings do not name the registered quantity type", {"simple": simple, "expected_simple": want_simple, "derived": derived, "expected_derived": want_derived})
+                part.add("outcomes", ("reg-strings", qt))
+
+
 def run(ctx):
     depth = 4 if ctx.thorough else 3
     part = ctx.part
@@ -173,6 +233,20 @@ def run(ctx):
                         q0.GetUnitName(), q0.GetUnit(), q0.GetCategory(), q0.GetQuantityType(), str(Scalar(q0, 1.0)), repr(Scalar(q0, 1.0)), str(Array(q0, [1.0]))
                     except Exception:
                         pass
+        # ... and after DERIVED quantities whose composing units are compound table symbols that render the
+        # same text as products of atoms (area m2 per second -> 'm2/s', velocity m/s times kg -> 'm/s.kg')
+        compound = [("m2", "area"), ("cm2", "area"), ("m3", "volume"), ("m/s", "velocity"), ("1/s", "frequency"), ("kg/m3", "density"), ("m/s2", "acceleration linear")]
+        rendered = 0
+        for cu, cc in compound:
+            for c, u in BASIS:
+                for f in (lambda: Scalar(2.0, cu, cc) * Scalar(3.0, u, c), lambda: Scalar(2.0, cu, cc) / Scalar(3.0, u, c), lambda: Scalar(3.0, u, c) / Scalar(2.0, cu, cc), lambda: Scalar(2.0, cu, cc) * Scalar(2.0, cu, cc)):
+                    try:
+                        r = f()
+                        r.GetUnitName(), r.GetUnit(), r.GetCategory(), r.GetQuantityType(), str(r), repr(r)
+                        rendered += 1
+                    except Exception:
+                        pass
+        part.count("compound_symbol_quantities_rendered_first", rendered)
         part.count("simple_quantities_rendered_first", len(db.unit_to_unit_info))
         _g2, t2 = algebra.explore(db, depth, BASIS, VALUES, on_transition=on_transition, reciprocals=True)
         transitions += t2
@@ -183,6 +257,7 @@ def run(ctx):
         for st in graph[40:44]:
             part.sample({"history": algebra.describe(st.history, BASIS, VALUES), "unit": st.scalar.GetUnit(), "category": st.scalar.GetCategory()}, cap=5)
         qts = sorted(db.GetQuantityTypes(), key=lambda q: -len(db.GetUnits(q)))
+    _registration_strings(part, 4 if ctx.thorough else 3)
     run_sharded(ctx, _simple_task, [qts[i::16] for i in range(16)])
     ctx.level = "model_checking"
     ctx.states = len(graph)
